@@ -126,6 +126,29 @@ kdump_bmp_decref(kdump_bmp_t *bmp)
 	return refcnt;
 }
 
+/** Drop a bitmap reference while holding the shared lock.
+ * @param bmp  Bitmap object.
+ * @returns    New reference count.
+ *
+ * Same as @ref kdump_bmp_decref, but for callers inside the library
+ * which hold the write lock of the shared data: the clean-up must not
+ * try to take that lock again.
+ */
+unsigned long
+bmp_decref_locked(kdump_bmp_t *bmp)
+{
+	unsigned long refcnt = --bmp->refcnt;
+	if (!refcnt) {
+		if (bmp->ops->cleanup_locked)
+			bmp->ops->cleanup_locked(bmp);
+		else if (bmp->ops->cleanup)
+			bmp->ops->cleanup(bmp);
+		err_cleanup(&bmp->err);
+		free(bmp);
+	}
+	return refcnt;
+}
+
 const char *
 kdump_bmp_get_err(const kdump_bmp_t *bmp)
 {
